@@ -410,6 +410,8 @@ def run(ck: Checker) -> None:
     ck.guard("R-REG-IDENT", lambda: r_reg_ident(ck))
     ck.guard("R-REG-FRESH", lambda: r_reg_fresh(ck))
     ck.guard("R-DESER-ID", lambda: r_deser_id(ck))
+    from .c03 import r_reg_pair
+    ck.guard("R-REG-PAIR", lambda: r_reg_pair(ck))  # a failed replace leaves the receiver registered
     if ck.tier == "thorough":
         ck.explanation += (" Thorough tier: mypy (the repository's own dev dependency, used as a library) infers the type of every write receiver "
                            "as a cross-check of the classification, and a compile-fail witness (a program assigning to node fields must be rejected "
